@@ -222,6 +222,21 @@ func (s *Session) SetModuleState(moduleName string, state any) {
 	s.moduleStates[moduleName] = state
 }
 
+// ModuleStateOrSet returns the state stored for the given module, storing the
+// given one first when there is none. Looking up and storing are one step:
+// participants that initialize a module of the same session at the same time
+// all end up with the same state.
+func (s *Session) ModuleStateOrSet(moduleName string, state any) any {
+	s.moduleMutex.Lock()
+	defer s.moduleMutex.Unlock()
+
+	if current, ok := s.moduleStates[moduleName]; ok {
+		return current
+	}
+	s.moduleStates[moduleName] = state
+	return state
+}
+
 func (s *Session) ModuleState(moduleName string) (any, bool) {
 	s.moduleMutex.RLock()
 	defer s.moduleMutex.RUnlock()
